@@ -53,6 +53,9 @@ def selectIndexes {α : Type} [Inhabited α] (grids : List (String × List Dim))
     | none => none
     | some gd =>
       if indexes.any (fun i => !decide (InRange (gd.map (·.2)) i.2)) then none else
+      -- xarray's `isel` refuses an indexer for a dimension no remaining variable has
+      if (gd.map (·.1)).any (fun d => !(keptVars ds geometry (gd.map (·.1))).any (fun v => v.2.names.contains d))
+      then none else
       some ((keptVars ds geometry (gd.map (·.1))).map fun v =>
         (v.1, v.2.selectVar (gd.map (·.1)) (indexes.map (·.2)) indexDim))
 
